@@ -2339,6 +2339,468 @@ def gen_fit_plan():
             + f"Definition fit_buffers_loop_body : list fit_step :=\n  {lst(steps_b)}.\n")
 
 
+def gen_tree_plan():
+    """The node operations of the CF-tree (bblean/bitbirch.py): _BFSubcluster.update /
+    add_to_n_samples_and_linear_sum / replace_n_samples_and_linear_sum / merge_subcluster,
+    _BFNode.append_subcluster / update_split_subclusters / insert_bf_subcluster and _split_node, as data in
+    the vocabulary of Model/TreePlan.v: the statements of each body in program order.  Every statement must
+    have one of the shapes below after its local names have been replaced by what the recognised statements
+    bound them to (so the name of a local or of a parameter is free, what it denotes is not); parameters
+    denote by POSITION; anything else is a failed translation."""
+    import copy
+    import re
+    tree = ast.parse((REPO / "bblean/bitbirch.py").read_text())
+    CMP = {ast.Gt: "CGt", ast.GtE: "CGe", ast.Lt: "CLt", ast.LtE: "CLe", ast.Eq: "CEq", ast.NotEq: "CNe"}
+    lst = lambda xs: "[" + "; ".join(xs) + "]"
+
+    def canon(node, env):
+        """source text of node with every bound local replaced by §<denotation>"""
+        class T(ast.NodeTransformer):
+            def visit_Name(self, n):
+                return ast.copy_location(ast.Name(id="§" + env[n.id], ctx=n.ctx), n) if n.id in env else n
+        return ast.unparse(T().visit(copy.deepcopy(node)))
+
+    def stmts_of(qual, nparams):
+        """(parameter names, statements without the docstring) of a plain function defined exactly once"""
+        parts = qual.split(".")
+        scope = tree.body if len(parts) == 1 else find_func(tree, ".".join(parts[:-1])).body
+        defs = [n for n in scope if isinstance(n, (ast.FunctionDef, ast.AsyncFunctionDef)) and n.name == parts[-1]]
+        if len(defs) != 1 or not isinstance(defs[0], ast.FunctionDef) or defs[0].decorator_list:
+            raise Unsupported(f"{qual}: not a plain function defined exactly once")
+        fn, a = defs[0], defs[0].args
+        params = [x.arg for x in a.posonlyargs + a.args]
+        if a.vararg or a.kwarg or a.kwonlyargs or a.defaults or len(params) != nparams or len(set(params)) != nparams:
+            raise Unsupported(f"{qual}: parameters {params}")
+        body = list(fn.body)
+        if body and isinstance(body[0], ast.Expr) and isinstance(body[0].value, ast.Constant) \
+                and isinstance(body[0].value.value, str):
+            body = body[1:]
+        for n in ast.walk(fn):
+            if isinstance(n, (ast.Global, ast.Nonlocal, ast.Lambda, ast.FunctionDef, ast.ClassDef, ast.NamedExpr,
+                              ast.Try, ast.With, ast.While, ast.Delete, ast.Yield, ast.YieldFrom, ast.Await)) \
+                    and n is not fn:
+                fail(n, f"{qual}: construct outside the recognised shapes")
+        return params, body
+
+    def check_property(qual, text):
+        parts = qual.split(".")
+        scope = find_func(tree, parts[0]).body
+        defs = [n for n in scope if isinstance(n, ast.FunctionDef) and n.name == parts[1]]
+        if len(defs) != 1 or [ast.unparse(d) for d in defs[0].decorator_list] != ["property"]:
+            raise Unsupported(f"{qual}: not a read-only property defined once")
+        body = [s for s in defs[0].body if not (isinstance(s, ast.Expr) and isinstance(s.value, ast.Constant))]
+        if [ast.unparse(s) for s in body] != text:
+            raise Unsupported(f"{qual}: the property is not {text}")
+
+    # the properties the shapes below rely on
+    check_property("_BFSubcluster.n_samples", ["return self._buffer.item(-1)"])
+    check_property("_BFSubcluster.linear_sum", ["read_only_view = self._buffer[:-1]",
+                                                "read_only_view.flags.writeable = False", "return read_only_view"])
+    check_property("_BFNode.packed_centroids", ["return self._packed_centroids_buf[:len(self._subclusters), :]"])
+    check_property("_BFNode.branching_factor", ["return self._packed_centroids_buf.shape[0] - 1"])
+    check_property("_BFNode.is_leaf", ["return self._prev_leaf is not None"])
+
+    def binder(qual, env):
+        def bind(st, target, what):
+            if not isinstance(target, ast.Name) or target.id in env or target.id == "self":
+                fail(st, f"{qual}: re-binding / unsupported binding target")
+            env[target.id] = what
+        return bind
+
+    def single_name_assign(st):
+        return isinstance(st, ast.Assign) and len(st.targets) == 1 and isinstance(st.targets[0], ast.Name)
+
+    # ---------------- Stage A: the two buffer mutators ----------------
+    def buf_plan(qual):
+        params, body = stmts_of(qual, 3)
+        if params[0] != "self":
+            raise Unsupported(f"{qual}: first parameter is not self")
+        env = {params[1]: "PN", params[2]: "PLS"}
+        bind = binder(qual, env)
+        NS = {"§PN": "NParam", "§NEWN": "NNewN"}
+        LS = {"§PLS": "LParam", "self._buffer[:-1]": "LBuffer"}
+        out = []
+        for st in body:
+            if single_name_assign(st):
+                if canon(st.value, env) != "self.n_samples + §PN":
+                    fail(st, f"{qual}: local binding other than `v = self.n_samples + n_samples`")
+                bind(st, st.targets[0], "NEWN")
+                out.append("BBindNewN")
+                continue
+            s = canon(st, env)
+            m = re.fullmatch(r"self\._buffer = self\._buffer\.astype\(min_safe_uint\((§\w+)\), copy=False\)", s)
+            if m and m.group(1) in NS:
+                out.append(f"BCastMinSafe {NS[m.group(1)]}")
+                continue
+            if isinstance(st, ast.AugAssign) and isinstance(st.op, ast.Add) \
+                    and canon(st.target, env) == "self._buffer[:-1]" and canon(st.value, env) in LS:
+                out.append(f"BAddInPlace {LS[canon(st.value, env)]}")
+                continue
+            if isinstance(st, ast.Assign) and len(st.targets) == 1:
+                t, v = canon(st.targets[0], env), canon(st.value, env)
+                if t == "self._buffer[:-1]" and v in LS:
+                    out.append(f"BAssignLs {LS[v]}")
+                    continue
+                if t == "self._buffer[-1]" and v in NS:
+                    out.append(f"BStoreN {NS[v]}")
+                    continue
+                m = re.fullmatch(r"centroid_from_sum\((.+), (§\w+), pack=True\)", v)
+                if t == "self.packed_centroid" and m and m.group(1) in LS and m.group(2) in NS:
+                    out.append(f"BCentroid {LS[m.group(1)]} {NS[m.group(2)]}")
+                    continue
+            fail(st, f"{qual}: statement outside the recognised shapes")
+        return out
+
+    # ---------------- Stage A: update ----------------
+    ATTR = {"n_samples": "AtNSamples", "linear_sum": "AtLinearSum", "mol_indices": "AtMolIndices"}
+
+    def update_plan():
+        qual = "_BFSubcluster.update"
+        params, body = stmts_of(qual, 2)
+        if params[0] != "self":
+            raise Unsupported(f"{qual}: first parameter is not self")
+        env = {params[1]: "ARG"}
+        out = []
+        for st in body:
+            s = canon(st, env)
+            m = re.fullmatch(r"self\.add_to_n_samples_and_linear_sum\(§ARG\.(\w+), §ARG\.(\w+)\)", s)
+            if isinstance(st, ast.Expr) and m and m.group(1) in ATTR and m.group(2) in ATTR:
+                out.append(f"UAddTo {ATTR[m.group(1)]} {ATTR[m.group(2)]}")
+                continue
+            m = re.fullmatch(r"self\.mol_indices\.extend\(§ARG\.(\w+)\)", s)
+            if isinstance(st, ast.Expr) and m and m.group(1) in ATTR:
+                out.append(f"UExtendIds {ATTR[m.group(1)]}")
+                continue
+            fail(st, f"{qual}: statement outside the recognised shapes")
+        return out
+
+    # ---------------- Stage A: merge_subcluster ----------------
+    def merge_plan():
+        qual = "_BFSubcluster.merge_subcluster"
+        params, body = stmts_of(qual, 4)
+        if params[0] != "self":
+            raise Unsupported(f"{qual}: first parameter is not self")
+        env = {params[1]: "NOM", params[2]: "VThreshold", params[3]: "ACCEPT"}
+        bind = binder(qual, env)
+        MV = {"§" + v: v for v in ("VOldN", "VNomN", "VNewN", "VOldLs", "VNomLs", "VNewLs", "VThreshold")}
+        RHS = {"self.n_samples": ("VOldN", "RSelfN"), "§NOM.n_samples": ("VNomN", "RNomN"),
+               "self.linear_sum": ("VOldLs", "RSelfLs"), "§NOM.linear_sum": ("VNomLs", "RNomLs")}
+
+        def ret(st):
+            if isinstance(st, ast.Return) and isinstance(st.value, ast.Constant) and isinstance(st.value.value, bool):
+                return "true" if st.value.value else "false"
+            return None
+
+        def acc_body(stmts):
+            out = []
+            for st in stmts:
+                s = canon(st, env)
+                m = re.fullmatch(r"self\.replace_n_samples_and_linear_sum\((§\w+), (§\w+)\)", s)
+                if isinstance(st, ast.Expr) and m and m.group(1) in MV and m.group(2) in MV:
+                    out.append(f"AReplace {MV[m.group(1)]} {MV[m.group(2)]}")
+                elif isinstance(st, ast.Expr) and s == "self.mol_indices.extend(§NOM.mol_indices)":
+                    out.append("AExtendIds")
+                elif ret(st) is not None:
+                    out.append(f"AReturn {ret(st)}")
+                else:
+                    fail(st, f"{qual}: statement in the accepted branch outside the recognised shapes")
+            return out
+
+        out = []
+        for st in body:
+            if single_name_assign(st):
+                v = canon(st.value, env)
+                m1 = re.fullmatch(r"(§\w+) \+ (§\w+)", v)
+                m2 = re.fullmatch(r"np\.add\((§\w+), (§\w+), dtype=min_safe_uint\((§\w+)\)\)", v)
+                if v in RHS:
+                    var, rhs = RHS[v]
+                elif m1 and all(g in MV for g in m1.groups()):
+                    var, rhs = "VNewN", f"(RAddN {MV[m1.group(1)]} {MV[m1.group(2)]})"
+                elif m2 and all(g in MV for g in m2.groups()):
+                    var, rhs = "VNewLs", f"(RNpAddMinSafe {MV[m2.group(1)]} {MV[m2.group(2)]} {MV[m2.group(3)]})"
+                else:
+                    fail(st, f"{qual}: local binding outside the recognised shapes")
+                if var in env.values():
+                    fail(st, f"{qual}: second binding of the same kind")
+                bind(st, st.targets[0], var)
+                out.append(f"MBind {var} {rhs}")
+                continue
+            if isinstance(st, ast.If):
+                t = st.test
+                if (st.orelse or not isinstance(t, ast.Call) or t.keywords or canon(t.func, env) != "§ACCEPT"
+                        or not all(canon(a, env) in MV for a in t.args)):
+                    fail(st, f"{qual}: test is not a positional call of the accept function on bound locals")
+                out.append(f"MIfAccept {lst([MV[canon(a, env)] for a in t.args])} {lst(acc_body(st.body))}")
+                continue
+            if ret(st) is not None:
+                out.append(f"MReturn {ret(st)}")
+                continue
+            fail(st, f"{qual}: statement outside the recognised shapes")
+        return out
+
+    # ---------------- Stage B: append_subcluster / update_split_subclusters ----------------
+    def node_plan(qual, penv):
+        params, body = stmts_of(qual, 1 + len(penv))
+        if params[0] != "self":
+            raise Unsupported(f"{qual}: first parameter is not self")
+        env = dict(zip(params[1:], penv))
+        bind = binder(qual, env)
+        ES = {"§EArg": "EArg", "§ENew1": "ENew1", "§ENew2": "ENew2"}
+        IS = {"§IOldLen": "IOldLen", "§IIndexOfOld": "IIndexOfOld"}
+        out = []
+        for st in body:
+            if single_name_assign(st):
+                v = canon(st.value, env)
+                if v == "len(self._subclusters)":
+                    bind(st, st.targets[0], "IOldLen")
+                    out.append("NBindOldLen")
+                elif v == "self._subclusters.index(§OLD)":
+                    bind(st, st.targets[0], "IIndexOfOld")
+                    out.append("NBindIndexOfOld")
+                else:
+                    fail(st, f"{qual}: local binding outside the recognised shapes")
+                continue
+            s = canon(st, env)
+            m = re.fullmatch(r"self\._subclusters\.append\((§\w+)\)", s)
+            if isinstance(st, ast.Expr) and m and m.group(1) in ES:
+                out.append(f"NListAppend {ES[m.group(1)]}")
+                continue
+            m = re.fullmatch(r"self\.append_subcluster\((§\w+)\)", s)
+            if isinstance(st, ast.Expr) and m and m.group(1) in ES:
+                out.append(f"NAppendSub {ES[m.group(1)]}")
+                continue
+            if isinstance(st, ast.Assign) and len(st.targets) == 1:
+                m = re.fullmatch(r"self\._subclusters\[(§\w+)\] = (§\w+)", s)
+                if m and m.group(1) in IS and m.group(2) in ES:
+                    out.append(f"NListSet {IS[m.group(1)]} {ES[m.group(2)]}")
+                    continue
+                m = re.fullmatch(r"self\._packed_centroids_buf\[(§\w+)\] = (§\w+)\.packed_centroid", s)
+                if m and m.group(1) in IS and m.group(2) in ES:
+                    out.append(f"NCacheSet {IS[m.group(1)]} {ES[m.group(2)]}")
+                    continue
+            fail(st, f"{qual}: statement outside the recognised shapes")
+        return out
+
+    # ---------------- Stage C: insert_bf_subcluster ----------------
+    def insert_plan():
+        qual = "_BFNode.insert_bf_subcluster"
+        params, body = stmts_of(qual, 4)
+        if params[0] != "self":
+            raise Unsupported(f"{qual}: first parameter is not self")
+        env = {params[1]: "GSub", params[2]: "GAcceptFn", params[3]: "GThreshold"}
+        bind = binder(qual, env)
+        GA = {"§GSub": "GSub", "§GAcceptFn": "GAcceptFn", "§GThreshold": "GThreshold"}
+        BINDS = {"_jt_sim_arr_vec_packed(self.packed_centroids, §GSub.packed_centroid)": ("SIMS", "IBindSims"),
+                 "np.argmax(§SIMS)": ("CI", "IBindClosestIdx"),
+                 "self._subclusters[§CI]": ("CSUB", "IBindClosestSub"),
+                 "§CSUB.child": ("CNODE", "IBindClosestNode")}
+        IFS = {"not self._subclusters": "IIfEmpty", "§CNODE is None": "IIfNoChild", "not §MERGED": "IIfNotMerged",
+               "§CSPLIT": "IIfChildSplit"}
+        ROWS = {"§CSUB.packed_centroid": "RowOfClosestSub",
+                "self._subclusters[§CI].packed_centroid": "RowOfEntryAtClosestIdx"}
+
+        def call_args(call, recv, meth):
+            if not (isinstance(call, ast.Call) and not call.keywords and isinstance(call.func, ast.Attribute)
+                    and call.func.attr == meth and canon(call.func.value, env) == recv
+                    and all(canon(a, env) in GA for a in call.args)):
+                return None
+            return lst([GA[canon(a, env)] for a in call.args])
+
+        def block(stmts):
+            out = []
+            for st in stmts:
+                if single_name_assign(st):
+                    v = canon(st.value, env)
+                    if v in BINDS:
+                        den, ctor = BINDS[v]
+                    elif call_args(st.value, "§CSUB", "merge_subcluster") is not None:
+                        den, ctor = "MERGED", "IBindMerged " + call_args(st.value, "§CSUB", "merge_subcluster")
+                    elif call_args(st.value, "§CNODE", "insert_bf_subcluster") is not None:
+                        den, ctor = "CSPLIT", "IBindChildSplit " + call_args(st.value, "§CNODE", "insert_bf_subcluster")
+                    else:
+                        fail(st, f"{qual}: local binding outside the recognised shapes")
+                    if den in env.values():
+                        fail(st, f"{qual}: second binding of the same kind")
+                    bind(st, st.targets[0], den)
+                    out.append(ctor)
+                    continue
+                if (isinstance(st, ast.Assign) and len(st.targets) == 1 and isinstance(st.targets[0], ast.Tuple)
+                        and len(st.targets[0].elts) == 2 and canon(st.value, env) == "_split_node(§CNODE)"):
+                    if "N1" in env.values():
+                        fail(st, f"{qual}: second split")
+                    bind(st, st.targets[0].elts[0], "N1")
+                    bind(st, st.targets[0].elts[1], "N2")
+                    out.append("ISplitClosestNode")
+                    continue
+                if isinstance(st, ast.If):
+                    t = canon(st.test, env)
+                    if st.orelse or t not in IFS:
+                        fail(st, f"{qual}: test outside the recognised shapes / else branch")
+                    out.append(f"{IFS[t]} {lst(block(st.body))}")
+                    continue
+                if isinstance(st, ast.Return) and st.value is not None:
+                    v = st.value
+                    if isinstance(v, ast.Constant) and isinstance(v.value, bool):
+                        out.append("IReturn " + ("RetTrue" if v.value else "RetFalse"))
+                        continue
+                    if (isinstance(v, ast.Compare) and len(v.ops) == 1 and type(v.ops[0]) in CMP
+                            and canon(v.left, env) == "len(self._subclusters)"
+                            and canon(v.comparators[0], env) == "self.branching_factor"):
+                        out.append(f"IReturn (RetLenCmpBf {CMP[type(v.ops[0])]})")
+                        continue
+                    fail(st, f"{qual}: returned value outside the recognised shapes")
+                s = canon(st, env)
+                if isinstance(st, ast.Expr):
+                    if s == "self.append_subcluster(§GSub)":
+                        out.append("IAppendArg")
+                        continue
+                    if s == "self.update_split_subclusters(§CSUB, §N1, §N2)":
+                        out.append("IUpdateSplit")
+                        continue
+                    if s == "§CSUB.update(§GSub)":
+                        out.append("IUpdateClosest UInserted")
+                        continue
+                if (isinstance(st, ast.Assign) and len(st.targets) == 1
+                        and canon(st.targets[0], env) == "self._packed_centroids_buf[§CI]"
+                        and canon(st.value, env) in ROWS):
+                    out.append(f"IRefreshClosestRow {ROWS[canon(st.value, env)]}")
+                    continue
+                fail(st, f"{qual}: statement outside the recognised shapes")
+            return out
+        return block(body)
+
+    # ---------------- Stage D: _split_node ----------------
+    def split_plan():
+        qual = "_split_node"
+        params, body = stmts_of(qual, 1)
+        env = {params[0]: "NODE"}
+        bind = binder(qual, env)
+        W = {"1": "W1", "2": "W2"}
+        CHAIN = {"§N1._prev_leaf = §N2._prev_leaf": "CPrev1FromPrev2",
+                 "§N2._prev_leaf._next_leaf = §N1": "CNextOfPrev2To1",
+                 "§N1._next_leaf = §N2": "CNext1To2",
+                 "§N2._prev_leaf = §N1": "CPrev2To1"}
+
+        def once(st, den):
+            if den in env.values():
+                fail(st, f"{qual}: second binding of the same kind")
+
+        def part(stmts):
+            out = []
+            for st in stmts:
+                s = canon(st, env)
+                m1 = re.fullmatch(r"§N([12])\.append_subcluster\(§ENT\)", s)
+                m2 = re.fullmatch(r"§T([12])\.update\(§ENT\)", s)
+                if isinstance(st, ast.Expr) and m1:
+                    out.append(f"LAppendTo {W[m1.group(1)]}")
+                elif isinstance(st, ast.Expr) and m2:
+                    out.append(f"LUpdateTracking {W[m2.group(1)]}")
+                else:
+                    fail(st, f"{qual}: statement in the redistribution loop outside the recognised shapes")
+            return out
+
+        out = []
+        for st in body:
+            if single_name_assign(st):
+                v = canon(st.value, env)
+                if v == "§NODE.n_features":
+                    den, ctor = "NF", "DBindNFeatures"
+                elif v == "§NODE.branching_factor":
+                    den, ctor = "BF", "DBindBf BfOfSplitNode"
+                elif v == "_BFSubcluster(n_features=§NF)":
+                    k = "2" if "T1" in env.values() else "1"
+                    den, ctor = "T" + k, f"DNewTracking {W[k]}"
+                elif v == "_BFNode(§BF, §NF)":
+                    den, ctor = "N1", "DNewNode1"
+                elif v == "§NODE":
+                    den, ctor = "N2", "DAliasNode2"
+                elif v == "§N2._subclusters.copy()":
+                    den, ctor = "ENTRIES", "DCopyEntries"
+                elif (isinstance(st.value, ast.Compare) and len(st.value.ops) == 1 and type(st.value.ops[0]) in CMP
+                      and canon(st.value.left, env) == "§S1" and canon(st.value.comparators[0], env) == "§S2"):
+                    den, ctor = "MASK", f"DMask {CMP[type(st.value.ops[0])]}"
+                else:
+                    fail(st, f"{qual}: local binding outside the recognised shapes")
+                once(st, den)
+                bind(st, st.targets[0], den)
+                out.append(ctor)
+                continue
+            if (isinstance(st, ast.Assign) and len(st.targets) == 1 and isinstance(st.targets[0], ast.Tuple)
+                    and len(st.targets[0].elts) == 4
+                    and canon(st.value, env) == "jt_most_dissimilar_packed(§N2.packed_centroids, §NF)"):
+                once(st, "I1")
+                e = st.targets[0].elts
+                if len({getattr(x, "id", None) for x in e}) != 4:
+                    fail(st, f"{qual}: targets of jt_most_dissimilar_packed")
+                for x, den in zip(e, ("I1", "I2", "S1", "S2")):
+                    bind(st, x, den)
+                out.append("DMostDissimilar")
+                continue
+            s = canon(st, env)
+            if isinstance(st, ast.Assign) and len(st.targets) == 1:
+                m = re.fullmatch(r"§T([12])\.child = §N([12])", s)
+                if m and m.group(1) == m.group(2):
+                    out.append(f"DSetChild {W[m.group(1)]}")
+                    continue
+                if s == "§MASK[§I1] = True":
+                    out.append("DForceTrueAtIdx1")
+                    continue
+                if s == "§N2._subclusters = []":
+                    out.append("DResetNode2")
+                    continue
+            if isinstance(st, ast.If) and canon(st.test, env) == "§N2.is_leaf" and not st.orelse:
+                steps = []
+                for c in st.body:
+                    cs = canon(c, env)
+                    if not (isinstance(c, ast.Assign) and cs in CHAIN):
+                        fail(c, f"{qual}: statement in the leaf-chain splice outside the recognised shapes")
+                    steps.append(CHAIN[cs])
+                out.append(f"DIfLeaf {lst(steps)}")
+                continue
+            if (isinstance(st, ast.For) and not st.orelse and isinstance(st.target, ast.Tuple)
+                    and len(st.target.elts) == 2 and canon(st.iter, env) == "enumerate(§ENTRIES)"):
+                once(st, "IDX")
+                bind(st, st.target.elts[0], "IDX")
+                bind(st, st.target.elts[1], "ENT")
+                if not (len(st.body) == 1 and isinstance(st.body[0], ast.If)
+                        and canon(st.body[0].test, env) == "§MASK[§IDX]" and st.body[0].orelse):
+                    fail(st, f"{qual}: the loop body is not `if node1_closer[idx]: ... else: ...`")
+                out.append(f"DLoop {lst(part(st.body[0].body))} {lst(part(st.body[0].orelse))}")
+                continue
+            if isinstance(st, ast.Return):
+                m = re.fullmatch(r"return \(?§T([12]), §T([12])\)?", s)
+                if m:
+                    out.append(f"DReturn {W[m.group(1)]} {W[m.group(2)]}")
+                    continue
+            fail(st, f"{qual}: statement outside the recognised shapes")
+        return out
+
+    add_to = buf_plan("_BFSubcluster.add_to_n_samples_and_linear_sum")
+    replace = buf_plan("_BFSubcluster.replace_n_samples_and_linear_sum")
+    upd = update_plan()
+    mrg = merge_plan()
+    app = node_plan("_BFNode.append_subcluster", ["EArg"])
+    usp = node_plan("_BFNode.update_split_subclusters", ["OLD", "ENew1", "ENew2"])
+    ins = insert_plan()
+    spl = split_plan()
+    hdr = ("(* GENERATED by /verif/translator/py2coq.py from bblean/bitbirch.py (_BFSubcluster.update / "
+           "add_to_n_samples_and_linear_sum / replace_n_samples_and_linear_sum / merge_subcluster, "
+           "_BFNode.append_subcluster / update_split_subclusters / insert_bf_subcluster, _split_node) "
+           "— do not edit. *)\nFrom BB Require Import Model.TreePlan.\nOpen Scope Z_scope.\n")
+    return (hdr
+            + "\n(* _BFSubcluster *)\n"
+            + f"Definition add_to_body : list buf_step :=\n  {lst(add_to)}.\n"
+            + f"Definition replace_body : list buf_step :=\n  {lst(replace)}.\n"
+            + f"Definition update_body : list upd_step :=\n  {lst(upd)}.\n"
+            + f"Definition merge_body : list merge_step :=\n  {lst(mrg)}.\n"
+            + "\n(* _BFNode *)\n"
+            + f"Definition append_body : list node_step :=\n  {lst(app)}.\n"
+            + f"Definition update_split_body : list node_step :=\n  {lst(usp)}.\n"
+            + f"Definition insert_body : list ins_step :=\n  {lst(ins)}.\n"
+            + "\n(* _split_node *)\n"
+            + f"Definition split_node_body : list sn_step :=\n  {lst(spl)}.\n")
+
+
 def write_if_changed(path: Path, text: str):
     if path.exists() and path.read_text() == text:
         return False
@@ -2384,6 +2846,7 @@ def main():
     attempt("GCliVd", gen_cli_validate)
     attempt("GConfig", gen_config)
     attempt("GFit", gen_fit_plan)
+    attempt("GTree", gen_tree_plan)
     for k, v in status.items():
         print(f"translate {k}: {v}")
     return 0 if all(v == "ok" for v in status.values()) else 1
